@@ -12,8 +12,9 @@ EXTENDS Integers, Sequences, FiniteSets, TLC, Json
 
 CONSTANTS Kind, MaxHist
 VARIABLES par, cache, outcome, hist,
-          touched    \* ghost: has anything been read since the last successful change (so that "read, then change" histories are explored)
-vars == <<par, cache, outcome, hist, touched>>
+          touched,   \* ghost: has anything been read since the last successful change (so that "read, then change" histories are explored)
+          attached   \* how often the profile has been handed to its Laser node (1: once; 2: the same object was assigned again)
+vars == <<par, cache, outcome, hist, touched, attached>>
 
 Params == CASE Kind = "uniform"    -> {"energy_density", "laser_length", "laser_radius", "polarization"}
             [] Kind = "cbg"        -> {"pulse_energy", "pulse_length", "stddev_x", "stddev_y", "laser_length", "laser_radius", "polarization"}
@@ -37,7 +38,7 @@ Proj(c, pr) == [p \in Dep(c) |-> pr[p]]
 
 Init == /\ par \in [Params -> {1}] \cup [Params -> {2}] \cup (IF IsSpectrum THEN {} ELSE {[p \in Params |-> IF HasDefaultId(p) THEN 3 ELSE 1]})
         /\ cache = [c \in Caches |-> <<Proj(c, par)>>]
-        /\ outcome = "ok" /\ touched = FALSE
+        /\ outcome = "ok" /\ touched = FALSE /\ attached = 1
         /\ hist = <<[op |-> "init", par |-> par]>>
 Log(e) == hist' = Append(hist, e)
 
@@ -50,18 +51,23 @@ Recomputes(p) == IF IsSpectrum THEN {"binned"}
 Set(p, v) ==
     /\ par' = [par EXCEPT ![p] = v]
     /\ cache' = [c \in Caches |-> IF c \in Recomputes(p) THEN <<Proj(c, par')>> ELSE cache[c]]
-    /\ outcome' = "ok" /\ touched' = FALSE
+    /\ outcome' = "ok" /\ touched' = FALSE /\ UNCHANGED attached
     /\ Log([op |-> "set", p |-> p, v |-> v])
 SetInvalid(p, v) ==
     /\ outcome' = "ValueError"
-    /\ UNCHANGED <<par, cache, touched>>
+    /\ UNCHANGED <<par, cache, touched, attached>>
     /\ Log([op |-> "set", p |-> p, v |-> v])
 \* reading any observable leaves everything as it is (observations are pure)
-Read == /\ UNCHANGED <<par, cache>> /\ outcome' = "ok" /\ touched' = TRUE /\ Log([op |-> "read"])
+Read == /\ UNCHANGED <<par, cache, attached>> /\ outcome' = "ok" /\ touched' = TRUE /\ Log([op |-> "read"])
+\* the Laser node is handed the profile it already has (laser.laser_profile = profile once more): nothing changes, and the node
+\* keeps following the profile afterwards (explored as the first step of a history)
+Reattach == /\ ~IsSpectrum /\ attached = 1 /\ Len(hist) = 1 /\ attached' = 2
+            /\ UNCHANGED <<par, cache, touched>> /\ outcome' = "ok" /\ Log([op |-> "reattach"])
 
 NextStep == \/ \E p \in Params : \E v \in Values(p) : Set(p, v)
             \/ \E p \in Params : \E v \in Invalid(p) : SetInvalid(p, v)
             \/ Read
+            \/ Reattach
 Next == Len(hist) <= MaxHist /\ NextStep
 Spec == Init /\ [][Next]_vars
 
@@ -88,6 +94,6 @@ ExpSegments(pr) == IF IsSpectrum THEN <<>> ELSE
                    LET L == Lengths[pr["laser_length"]]  r == Radii[pr["laser_radius"]] IN
                    [nmax |-> NSeg(L, r), length |-> <<L, D>>, radius |-> <<r, D>>]
 
-View == <<par, cache, outcome, touched>>
+View == <<par, cache, outcome, touched, attached>>
 Emit == PrintT(ToJson([h |-> hist', par |-> par', outcome |-> outcome', segments |-> ExpSegments(par')]))
 =============================================================================
